@@ -59,6 +59,17 @@ CHECKS["C03"] = ("Range.tla, RangeOps.tla, TraceRange.tla",
     "Trusted: TLC, header rendering in the adapter. Either 400 or 416 accepted when both apply.",
     "DESIGN.md 5 C03")
 
+CHECKS["C02"] = ("FileResponse.tla, RangeOps.tla",
+    "TLC exhaustive model check of Decide + per-interface emit loops (WSGI range loop, ASGI fake_sendfile counted/uncounted, "
+    "zero-copy messages, multipart plan and the closed length formula) against StatusOK, LengthTruthful, BodyExact, "
+    "MultipartShape, UnsatHeader, RangeHeader, LastOnlyFinal; every case executed on the real classes against real files",
+    "All listed sizes (0, 1, multiples of the chunk and +-1, digit-count steps 9/10/11, thorough 99/100/101) x chunk sizes x "
+    "three interfaces x GET/HEAD x single/pair/triple range sets x 7 If-Range kinds; byte-exact body comparison (multipart "
+    "body rebuilt with the response's own boundary), per-event sizes compared as mechanism (drift).",
+    "Trusted: TLC, servers.py (plays the zero-copy server by reading (fd, offset, count) itself), canonical ranges from the "
+    "C03-bound function. The file is not modified between construction and sending.",
+    "DESIGN.md 5 C02")
+
 NOT_YET = {}
 
 ALL = ["C%02d" % i for i in range(1, 21)]
